@@ -161,26 +161,53 @@ func checkKindGuard(r *Run, tp *packages.Package) {
 			}
 		}
 	}
-	ok := false
-	ast.Inspect(fd.Body, func(n ast.Node) bool {
-		ifs, isIf := n.(*ast.IfStmt)
-		if !isIf || ifs.Else == nil {
-			return true
-		}
+	// every use of the contains operator is controlled by a condition that mentions the exclusivity parameter, and some
+	// use of the overlap operator is controlled by the negation of that same condition (an else arm, or the code after a
+	// leaving `if`)
+	mentionsParam := func(e ast.Expr) bool {
 		mentions := false
-		ast.Inspect(ifs.Cond, func(m ast.Node) bool {
+		ast.Inspect(e, func(m ast.Node) bool {
 			if id, isId := m.(*ast.Ident); isId && info.Uses[id] == param {
 				mentions = true
 			}
 			return true
 		})
-		thenTxt := exprString(r.Fset, ifs.Body)
-		elseTxt := exprString(r.Fset, ifs.Else)
-		if mentions && strings.Contains(thenTxt, "OperatorPGArrayLHSContainsRHS") && strings.Contains(elseTxt, "OperatorPGArrayOverlap") && !strings.Contains(thenTxt, "OperatorPGArrayOverlap") {
-			ok = true
+		return mentions
+	}
+	containsGuards := map[ast.Expr]bool{}
+	containsUses, unguardedContains, overlapOnNegation := 0, 0, false
+	var overlapUses []*ast.Ident
+	ast.Inspect(fd.Body, func(n ast.Node) bool {
+		id, isId := n.(*ast.Ident)
+		if !isId {
+			return true
+		}
+		switch id.Name {
+		case "OperatorPGArrayLHSContainsRHS":
+			containsUses++
+			guarded := false
+			for _, l := range controlConds(fd.Body, id) {
+				if !l.Neg && mentionsParam(l.Expr) {
+					containsGuards[l.Expr] = true
+					guarded = true
+				}
+			}
+			if !guarded {
+				unguardedContains++
+			}
+		case "OperatorPGArrayOverlap":
+			overlapUses = append(overlapUses, id)
 		}
 		return true
 	})
+	for _, id := range overlapUses {
+		for _, l := range controlConds(fd.Body, id) {
+			if l.Neg && containsGuards[l.Expr] {
+				overlapOnNegation = true
+			}
+		}
+	}
+	ok := containsUses > 0 && unguardedContains == 0 && overlapOnNegation
 	if ok {
 		r.Pass("C01-R3-guard", "kind-matcher:IsExclusive-consulted", fd.Pos(), "exclusive matchers use contains (@>), non-exclusive ones overlap (&&)")
 	} else {
